@@ -75,6 +75,14 @@ class Lang:
     def __init__(self, fromk, tok, tparams, units):
         self.fromk, self.tok, self.tparams, self.units = fromk, tok, tparams, units
         self.ret = None
+        self.aliases = set()        # type aliases introduced by the using-declarations executed so far
+
+    def using(self, X, text):
+        """the only using-declaration of the translated bodies: `using Order = typename to_sparsity_t::Order;`"""
+        if text.replace(" ", "") == "usingOrder=typenameto_sparsity_t::Order":
+            self.aliases.add("Order")
+            return True
+        return False
 
     # ---- types
     def literal_default(self, v, what):
@@ -222,6 +230,8 @@ class Lang:
                 raise OutOfGrammar("%s: static_cast" % ex.what)
             ty = a[0][0][1]
             v = ex.sub(a[1])
+            if ty in ("Order", "T__Order") and "Order" not in self.aliases:
+                raise OutOfGrammar("%s: static_cast to Order without `using Order = typename to_sparsity_t::Order;`" % ex.what)
             if ty.endswith("Order") and v[0] in ("ORDC", "ORDO"):
                 want = ORDER_OF.get(self.tok)
                 if want != v[0]:
